@@ -134,8 +134,57 @@ def gen_case(rng, supervised, large_scale=False):
   return ev
 
 
+def gen_sweeps_case(rng):
+  """a SMALL fit for the exact replay against the projection machine (ITML.tla, dimension d, rational arithmetic):
+  the bit length of the exact iterates roughly doubles with every projection, hence <= 14 projections in all"""
+  d = int(rng.integers(1, 4))
+  nC = int(rng.integers(2, 6))
+  max_iter = int(rng.integers(1, max(2, 14 // nC + 1)))
+  while True:
+    V = rng.integers(-4, 5, size=(nC, d)) / 2.0
+    if np.all(np.abs(V).sum(1) > 0):
+      break
+  lab = np.array([1] * int(rng.integers(1, nC)) + [-1] * nC)[:nC]
+  lab = lab[rng.permutation(nC)]
+  base = rng.integers(-8, 9, size=(nC, d)) / 2.0
+  pairs = np.stack([base, base + V], axis=1)
+  gamma = float(rng.choice([0.25, 1.0, 4.0, 64.0, np.inf]))
+  # gamma = infinity (no slack) is recognised by the implementation through the IDENTITY test `gamma is np.inf`: the object
+  # np.inf itself is handed over, and now and then another float object holding infinity (math.inf, float('inf')) - a named
+  # deviation of the specification (the projection step degenerates to NaN and every sweep leaves the prior untouched)
+  same_object = bool(rng.random() < 0.75)
+  gamma_arg = (np.inf if same_object else float('inf')) if np.isinf(gamma) else gamma
+  bounds = np.array([float(rng.choice([0.5, 1.0, 2.0])), float(rng.choice([2.0, 3.0, 4.0, 6.0]))])
+  tol = float(rng.choice([0.0, 2.0 ** -10, 2.0 ** -4, 0.25, 0.5]))
+  if rng.random() < 0.4 and d > 1:
+    B = rng.integers(-2, 3, size=(d, d)) / 2.0
+    prior = B.T.dot(B) + np.eye(d)
+    prior_kind = 'array'
+  else:
+    prior, prior_kind = 'identity', 'identity'
+  ev = {'ev': 'ItmlSweeps', 'exc': '', 'gamma_inf': bool(np.isinf(gamma)), 'gamma': dy(0.0 if np.isinf(gamma) else gamma),
+        'max_iter': max_iter, 'tol': dy(tol), 'n_iter': 0, 'L': [], 'M0': dym(np.eye(d) if prior_kind == 'identity' else prior),
+        'v': [], 'y': [], 'bounds': [], 'prior_kind': prior_kind, 'mode': 'sweeps', 'supervised': False,
+        'gamma_is_np_inf': bool(np.isinf(gamma) and same_object)}
+  with warnings.catch_warnings():
+    warnings.simplefilter('ignore')
+    try:
+      est = gen.ITML(gamma=gamma_arg, max_iter=max_iter, tol=tol, prior=prior if prior_kind == 'identity' else prior.copy())
+      est.fit(pairs.copy(), lab.copy(), bounds=bounds.copy())
+      pos, neg = pairs[lab == 1], pairs[lab == -1]
+      Vc = np.vstack([pos[:, 0] - pos[:, 1], neg[:, 0] - neg[:, 1]])       # the order of the implementation: similar pairs first
+      ev.update(L=dym(np.asarray(est.components_)), v=dym(Vc), y=[1] * len(pos) + [-1] * len(neg), n_iter=int(est.n_iter_),
+                bounds=dyv(est.bounds_))
+    except Exception as e:
+      ev['exc'] = type(e).__name__
+      ev['exc_msg'] = str(e)[:160]
+  return ev
+
+
 def gen_trace(recipe):
   rng = np.random.default_rng(recipe['seed'])
+  if recipe.get('sweeps'):
+    return {'est': 'ITML', 'events': [gen_sweeps_case(rng) for _ in range(recipe['n'])]}
   return {'est': 'ITML', 'events': [gen_case(rng, recipe['supervised'], bool(recipe.get('large_scale'))) for _ in range(recipe['n'])]}
 
 
@@ -149,10 +198,10 @@ def run(ctx):
   ctx.model('MC_ITML', 'MC_ITML.cfg')
   rng = np.random.default_rng(ctx.seed + 11)
   rs = []
-  for i in range(16 if ctx.quick else 384):
+  for i in range(16 if ctx.quick else 768):
     rs.append(dict(supervised=bool(i % 2), n=5 if ctx.quick else 12, seed=int(rng.integers(1 << 30))))
   # directed: an O(1) prior with raw features of magnitude 2^14 (tiny multipliers), run to convergence
-  for i in range(2 if ctx.quick else 16):
+  for i in range(2 if ctx.quick else 48):
     rs.append(dict(supervised=bool(i % 2), large_scale=True, n=4 if ctx.quick else 10, seed=int(rng.integers(1 << 30))))
   ctx.rule = ('random pair sets (both labels, non-collapsed) x priors {identity, covariance, random, SPD array} x gamma in '
               '{1/4, 1, 4, 64} x explicit / default bounds x {run to convergence with tol 1e-12, 1-5 iterations, prior '
@@ -167,6 +216,19 @@ def run(ctx):
       ctx.note_case((str(e['v'])[:80], e['mode'], e['prior_kind'], str(e['gamma'])), nontrivial=active)
       src[e['lam_source']] = src.get(e['lam_source'], 0) + 1
   ctx.extra['dual_witness_source'] = src
+  # ---- growth of the specification: small fits replayed EXACTLY against the projection machine (clauses G11.*)
+  srs = [dict(sweeps=True, supervised=False, n=6 if ctx.quick else 10, seed=int(rng.integers(1 << 30))) for _ in range(6 if ctx.quick else 160)]
+  spairs = core.generate(MOD, srs)
+  core.judge(ctx, *SPEC, spairs, signature_of, tag='sweeps')
+  for r, t in spairs:
+    for e in t['events']:
+      ctx.note_case(('sweeps', str(e['v'])[:80], str(e['gamma']), e['max_iter'], str(e['tol'])), nontrivial=e['n_iter'] + 1 < e['max_iter'])
+  ctx.extra['machine_replays'] = sum(len(t['events']) for _, t in spairs)
+
+  def scaled(t):
+    e = t['events'][0]
+    e['L'] = [[[x[0], x[1] + 1, x[2]] if x[0] in (1, -1) else x for x in row] for row in e['L']]      # components_ doubled
+  core.selftest_binding(ctx, *SPEC, spairs[0][1], scaled, 'G11.', 'components_doubled_in_a_machine_replay')
   ctx.extra['probes_missing'] = [] if src.get('nnls', 0) == 0 else ['ITML._fit frame locals (NNLS fallback used)']
   ctx.sample({k: str(v)[:140] for k, v in pairs[0][1]['events'][0].items()})
   # binding self-test: in a trace whose duals matter (P - P0 is a sizeable part of the scale), zero the logged duals
